@@ -22,9 +22,9 @@ def run_all(repo="/repo"):
     r = subprocess.run(["cargo", "+nightly", "test", "--doc", "--offline", "--", "--test-threads", "16"], cwd=WDIR, env=env,
                        stdout=subprocess.PIPE, stderr=subprocess.STDOUT, text=True, timeout=1800)
     res = {}
-    for m in re.finditer(r"^test (\S+) - (\S+) \(line (\d+)\)( - compile fail)? \.\.\. (\w+)", r.stdout, re.M):
+    for m in re.finditer(r"^test (\S+) - (\S+) \(line (\d+)\)( - compile fail| - compile)? \.\.\. (\w+)", r.stdout, re.M):
         name = m.group(2)
-        kind = "compile_fail" if m.group(4) else "twin"
+        kind = "compile_fail" if (m.group(4) or "").strip() == "- compile fail" else "twin"
         res.setdefault(name, []).append({"kind": kind, "line": int(m.group(3)), "result": m.group(5)})
     _cache["res"] = (res, r.returncode, r.stdout)
     return _cache["res"]
@@ -49,7 +49,7 @@ def run_for(prop, names, ctx):
             ok = it["result"] == "ok"
             key = "%s:%s" % (n, it["kind"])
             detail = ("client program is rejected by rustc with the expected error code" if it["kind"] == "compile_fail"
-                      else "twin differing only in the offending line compiles and runs")
+                      else "twin differing only in the offending line compiles (no_run)")
             where = "witness/src/lib.rs:%d" % it["line"]
             if ok:
                 ctx.holds("W." + n, "witness::" + n, key, where, detail)
